@@ -19,6 +19,10 @@ ASSUMPTIONS = [
 
 def run(check):
     check.run_rule('C12.R1', lambda c: rule_prepare_table(c, 'C12.R1', 'C12.R1'))
+    from ..rules_defuse import rule_definite_assignment
+    check.run_rule('C12.R6', lambda c: rule_definite_assignment(
+        c, 'C12.R6', ['modifiers:_PokTranslator.__init__', 'modifiers:_PokTranslator.__call__', 'modifiers:_kwoargs_start', 'modifiers:_posoargs_end',
+                      'modifiers:_autokwoargs', 'modifiers:annotate.__call__'], 'instead of the documented ValueError/TypeError'))
     from ..rules_modifiers import rule_kwopos_index
     check.run_rule('C12.R1k', lambda c: rule_kwopos_index(c, 'C12.R1'))
     from ..rules_modifiers import rule_empty_selection_guarded
